@@ -93,12 +93,15 @@ def vspec_clause(unit, label):
     if not os.path.exists(path):
         return None
     text = open(path).read()
-    m = re.search(r'\[' + re.escape(label) + r'(?:\|C\d\d)*\]', text)
+    m = None
+    for mm in re.finditer(r'\[' + re.escape(label) + r'(?:\|C\d\d)*\]', text):
+        if '//' not in text[text.rfind('\n', 0, mm.start()) + 1:mm.start()]:      # a mention inside a `//` comment is not the clause
+            m = mm; break
     if not m:
         return None
     rest = text[m.end():]
     stop = len(rest)
-    for pat in (r'\n@', r'\[(?:C\d\d|[a-z]+)\.[A-Za-z0-9_.\-]+(?:\|C\d\d)*\]', r'\n\s*(?:ensures|requires|invariant|decreases)\b', r'\n\{', r'\n\s*\}'):
+    for pat in (r'\n@', r'\[(?:C\d\d|[a-z]+)\.[A-Za-z0-9_.\-]+(?:\|C\d\d)*\]', r'\n\s*(?:ensures|requires|invariant|decreases)\b', r'\n\{', r'\n\s*\}', r'\n\s*\);'):
         mm = re.search(pat, rest)
         if mm:
             stop = min(stop, mm.start())
@@ -133,22 +136,65 @@ def extract_items(spec, repo):
     texts, log = {}, []
     for e in spec['extract']:
         try:
-            item, imp, src = gen.find_item(e['file'], e['kind'], e['sel'])
+            item, imp, src = gen.find_item(e['file'], 'fn' if e['kind'] == 'closure_body' else e['kind'], e['sel'])
         except gen.SpecError as ex:
             raise Undecided(str(ex))
-        tx = gen.Text(src, item.start, item.end, e['file'])
+        span = (item.start, item.end)
+        if e['kind'] == 'closure_body':
+            span = closure_body_span(src, item, e)
+        tx = gen.Text(src, span[0], span[1], e['file'])
         gen.strip_common(tx, keep_vis=bool(e.get('keep_vis')))   # keep_vis: `pub(crate)` etc. stay (items spliced into a nested mod)
         vis = [src[s:t].strip() for s, t, r in tx.edits if r == '' and src[s:t].strip().startswith('pub')]
         docs = sum(1 for s, t, r in tx.edits if r == '' and src[s:t].lstrip().startswith('//'))
         body = tx.render().strip('\n')
-        raw = src[item.start:item.end]
+        raw = src[span[0]:span[1]]
         texts[e.get('id', e['sel'])] = body
         log.append({'id': e.get('id', e['sel']), 'file': e['file'], 'sel': e['sel'], 'kind': e['kind'],
-                    'lines': f"{rl.line_of(src, item.decl_start)}-{rl.line_of(src, item.end)}",
+                    'lines': f"{rl.line_of(src, max(span[0], item.decl_start))}-{rl.line_of(src, span[1])}",
                     'sha256_of_source_span': hashlib.sha256(raw.encode()).hexdigest()[:16],
                     'dropped': {'visibility': vis, 'doc_comment_lines': docs,
                                 'other': [f"{d['rule']} {d['at']}: {d['text'][:80]} ({d['note']})" for d in tx.log]}})
     return texts, log
+
+
+def closure_body_span(src, item, e):
+    """kind `closure_body` (the R5 lift of vp/gen.py, reduced to what a twin needs): byte span of the `{ ... }` body of the
+    nth closure passed to `.CALL(` / `CALL(` inside fn `sel`  (e.g. call=filter_map, call=or_insert_with, nth=1).  The
+    harness file supplies the fn header the block is spliced under; a captured `self` becomes the method's receiver."""
+    toks = rl.lex(src[item.body_open:item.end])
+    ct = rl.code_toks(toks)
+    call = e['call'].split('::')
+    want, seen = int(e.get('nth', 1)), 0
+    for i in range(len(ct) - len(call) - 2):
+        names = [ct[i + 3 * k].text for k in range(len(call))] if len(call) > 1 else [ct[i].text]
+        if len(call) > 1:
+            ok = all(ct[i + 3 * k].kind == 'id' for k in range(len(call))) and names == call and \
+                all(ct[i + 3 * k + 1].text == ':' and ct[i + 3 * k + 2].text == ':' for k in range(len(call) - 1))
+            j = i + 3 * (len(call) - 1) + 1
+        else:
+            ok = ct[i].kind == 'id' and ct[i].text == call[0]
+            j = i + 1
+        if not ok or ct[j].text != '(':
+            continue
+        k = j + 1
+        if ct[k].text == 'move':
+            k += 1
+        if ct[k].text == '|' and ct[k + 1].text == '|':
+            k += 2                              # `||`
+        elif ct[k].text == '|':
+            k += 1
+            while ct[k].text != '|':
+                k += 1
+            k += 1
+        else:
+            continue
+        if ct[k].text != '{':
+            continue
+        seen += 1
+        if seen == want:
+            close = rl.match_close(ct, k)
+            return item.body_open + ct[k].start, item.body_open + ct[close].end
+    raise Undecided(f"LOST-ANCHOR: {e['file']}: closure {want} of `{e['call']}(` in fn {e['sel']} not found ({seen} candidates)")
 
 
 def build_crate(spec, repo, work):
@@ -501,13 +547,20 @@ def selftest(pats):
         scratch = tempfile.mkdtemp(prefix=f'turmoil-verif-kanimut-{os.getpid()}-')
         try:
             subprocess.run(['rsync', '-a', '--exclude', 'target', '--exclude', '.git', repo.rstrip('/') + '/', scratch + '/'], check=True)
-            path = os.path.join(scratch, e['file'])
-            src = open(path).read()
-            if src.count(e['old']) != 1:
+            lost = False
+            if e.get('patch'):      # a unified diff relative to the tree root (e.g. an independently seeded change under seeded/)
+                pr = subprocess.run(['patch', '-p1', '-s', '-d', scratch, '-i', os.path.join(VERIF, e['patch'])], capture_output=True, text=True)
+                lost = pr.returncode != 0
+            for ed in ([e] if 'old' in e else []) + e.get('edits', []):     # exact, unique text replacements
+                path = os.path.join(scratch, ed.get('file', e.get('file')))
+                src = open(path).read()
+                if src.count(ed['old']) != 1:
+                    lost = True; break
+                open(path, 'w').write(src.replace(ed['old'], ed['new']))
+            if lost:
                 rows.append({'id': e['id'], 'ok': False, 'status': 'ANCHOR-LOST'}); bad += 1
                 print(f"selftest {e['id']:34s} ANCHOR-LOST", flush=True)
                 continue
-            open(path, 'w').write(src.replace(e['old'], e['new']))
             spec, twin = idx[e['label']]
             r = run_many([(spec, twin)], scratch)[0]
             if e.get('expect_status') == 'undecided':
